@@ -95,6 +95,10 @@ static AState project(const decay0_generator & g, bool threw, std::string & inco
     a.range = "ok";
   } else if (lo == R_INV_LO && hi == R_INV_HI) {
     a.range = "inv";
+  } else if (lo == R_OK_LO && std::isnan(hi)) {
+    a.range = "lo";
+  } else if (std::isnan(lo) && hi == R_OK_HI) {
+    a.range = "hi";
   } else {
     a.range = "?";
   }
@@ -107,7 +111,8 @@ static AState project(const decay0_generator & g, bool threw, std::string & inco
   if (g.has_decay_isotope() != (!a.iso.empty())) incoherent += " has_decay_isotope";
   if (g.has_decay_dbd_level() != (a.level != -1)) incoherent += " has_decay_dbd_level";
   if (g.has_decay_dbd_mode() != (a.mode != 0)) incoherent += " has_decay_dbd_mode";
-  if (g.has_decay_dbd_esum_range() != (a.range != "none")) incoherent += " has_decay_dbd_esum_range";
+  // has_decay_dbd_esum_range() = "both bounds are set"
+  if (g.has_decay_dbd_esum_range() != (a.range == "ok" || a.range == "inv")) incoherent += " has_decay_dbd_esum_range";
   if (g.is_dbd() != (a.cat == "dbd")) incoherent += " is_dbd";
   if (g.is_background() != (a.cat == "bkg")) incoherent += " is_background";
   return a;
@@ -156,6 +161,8 @@ static std::string canon_event(const AState & c, int shot_index)
     g.set_decay_dbd_level(c.level);
     g.set_decay_dbd_mode((bxdecay0::dbd_mode_type)c.mode);
     if (c.range == "ok") g.set_decay_dbd_esum_range(R_OK_LO, R_OK_HI);
+    if (c.range == "lo") g.set_decay_dbd_esum_range(R_OK_LO, std::nan(""));
+    if (c.range == "hi") g.set_decay_dbd_esum_range(std::nan(""), R_OK_HI);
   }
   for (int i = 0; i < c.nops; i++) g.add_operation(make_op());
   vh::stream pr(99);
@@ -216,6 +223,10 @@ struct Runner
           g->set_decay_dbd_esum_range(std::nan(""), std::nan(""));
         else if (a.arg == "ok")
           g->set_decay_dbd_esum_range(R_OK_LO, R_OK_HI);
+        else if (a.arg == "lo")
+          g->set_decay_dbd_esum_range(R_OK_LO, std::nan(""));
+        else if (a.arg == "hi")
+          g->set_decay_dbd_esum_range(std::nan(""), R_OK_HI);
         else
           g->set_decay_dbd_esum_range(R_INV_LO, R_INV_HI);
       } else if (a.name == "AddOp") {
